@@ -1236,7 +1236,7 @@ func conv(t_dst, t_src types.Type, x value) value {
 		switch ut_dst := ut_dst.(type) {
 		case *types.Slice:
 			if ut_dst.Elem().Underlying().(*types.Basic).Kind() == types.Byte {
-				return append([]value(nil), sx.b...)
+				return append([]value{}, sx.b...)
 			}
 			panic(abort{AbortUnsupported, "[]rune(symbolic string)"})
 		case *types.Basic:
@@ -1286,7 +1286,7 @@ func conv(t_dst, t_src types.Type, x value) value {
 		if s, ok := x.(string); ok {
 			switch ut_dst := ut_dst.(type) {
 			case *types.Slice:
-				var res []value
+				res := []value{} // []byte("") is empty but not nil
 				switch ut_dst.Elem().Underlying().(*types.Basic).Kind() {
 				case types.Rune:
 					for _, r := range []rune(s) {
